@@ -42,7 +42,7 @@ func Vocab(id int) []string {
 			"1", "'s'", "|", "(", ")", "[", "]", ",", "=", "==", "+", "-", ".", ";"}
 	case 5:
 		// compile-level: few plain names (among them the generated subquery names), every operator word
-		return cat([]string{"a", "T", "__subquery0", "__subquery1"}, wordsOperators, []string{"asc", "nulls", "first", "kind", "inner", "leftouter", "on", "with"},
+		return cat([]string{"a", "T", "__subquery0", "__subquery1", "__subquery0_", "__subquery1_"}, wordsOperators, []string{"asc", "nulls", "first", "kind", "inner", "leftouter", "on", "with"},
 			[]string{"f", "not", "count", "true", "$left"}, lexKeywords, []string{"1", "2.5", "'s'", "`q`"}, lexPunct)
 	case 3:
 		return cat([]string{"a", "b"}, wordsFunctions, wordsConstants, lexKeywords, lexLiterals,
